@@ -320,7 +320,7 @@ def fitsParam (S : Schema) : Nat → String → Val → Bool
     | some c =>
       fitsFields c.fields fs && fitsSlots S fuel c.slots subs none &&
         decide (c.headerSize + fieldsSz c.fields fs + szSlots S fuel c.slots subs none < 65536)
-/-- cardinalities: required = 1, optional ≤ 1, repeatable any; in a choice group exactly one member is present and it
+/-- cardinalities: required = 1, optional ≤ 1, repeatable any (required repeatable: at least 1, as the table's `1..n`); in a choice group exactly one member is present and it
 passes the encoder's "present?" test. `open` = a choice group whose member has not been seen yet / `served` -/
 def fitsSlots (S : Schema) : Nat → List Slot → List (List Val) → Option (String × Bool) → Bool
   | 0, _, _, _ => false
@@ -339,7 +339,7 @@ def fitsSlots (S : Schema) : Nat → List Slot → List (List Val) → Option (S
         fitsSlots S fuel ss vss (s.group.map fun g => (g, served || here == 1))
     else
       let prevOk := match st with | some (_, served) => served | none => true
-      let card := if s.repeatable then true else if s.optional then decide (vs.length ≤ 1) else vs.length == 1
+      let card := if s.repeatable then (s.optional || decide (1 ≤ vs.length)) else if s.optional then decide (vs.length ≤ 1) else vs.length == 1
       prevOk && each && card && fitsSlots S fuel ss vss none
   | _, _, _, _ => false
 def fitsList (S : Schema) : Nat → String → List Val → Bool
